@@ -60,6 +60,7 @@ RULE = ("cases = (operation, input shapes 0-3 d with lengths 0-8, data alphabet/
 ASSUMPTIONS = ["NumPy 2.x defines the expected values, dtype and shape", "sync scheduler",
                "coarsen reference = trim, reshape to (n//k, k) per axis and reduce (harness code)"]
 BUDGET = {"quick": 60, "thorough": 560}
+CASE_TIMEOUT = 180
 _OPF = {"unique": 520, "bincount": 370, "histogram": 250, "histogramdd": 270, "digitize": 135, "searchsorted": 300, "isin": 340,
         "argwhere": 450, "count_nonzero": 115, "ravel_multi_index": 135, "unravel_index": 115, "coarsen": 240, "compress": 250}
 FLOORS = {"quick": {"evaluations": 1700, "distinct_nontrivial": 1200,
